@@ -303,7 +303,16 @@ def r5_not_found_iff_unbound(ctx):
     R.floor("C13.R5", n, 2, "MethodNotFound sites in the two dispatchers")
 
 
-RULES = [r1_insert_after_verify, r2_all_or_nothing, r3_copy_on_write, r4_dispatch_and_remove, r5_not_found_iff_unbound]
+
+def r6_sibling_registrars(ctx):
+    """the sibling registrars treat their name parameters alike"""
+    from .common import sibling_param_agreement
+    M = r"^jsonrpsee_core::server::rpc_module::RpcModule::<Context>::%s$"
+    sibling_param_agreement(ctx, "C13.R6", (("register_subscription", M % "register_subscription"), ("register_subscription_raw", M % "register_subscription_raw")), 3)
+    sibling_param_agreement(ctx, "C13.R6m", (("register_method", M % "register_method"), ("register_async_method", M % "register_async_method"), ("register_blocking_method", M % "register_blocking_method")), 2)
+
+
+RULES = [r1_insert_after_verify, r2_all_or_nothing, r3_copy_on_write, r4_dispatch_and_remove, r5_not_found_iff_unbound, r6_sibling_registrars]
 
 LEVEL_TEXT = (
     "For operation histories on one module the property is exactly a statement about which checks dominate which "
